@@ -4,7 +4,7 @@ import json
 import multiprocessing as mp
 import os
 
-from harness import common, oracle, progs, obligations
+from harness import common, corr, oracle, progs, obligations
 
 OWN = {
     'C01': ('C01',),
@@ -88,8 +88,14 @@ def one_case(args):
     batch = oracle.Batch()
     pend = {}
     lays = {}
+    corr_ids = {}
+    ress = {}
+    big = len(src) > 200000 or '0x200000' in src and any(l.kind == 'pjump' and l.label == 'T' and i < 8 for i, l in enumerate(lines))
     for compress in (False, True):
         res = progs.assemble_chunks(asm, src, compress)
+        ress[compress] = res
+        if not (res.status == 'ok' and len(res.bytes) > 300000):
+            corr_ids[compress] = batch.ask(corr.request(src, compress))
         out['status'][compress] = res.status + (':' + str(res.exc) if res.status != 'ok' else '')
         if res.status != 'ok':
             continue
@@ -103,6 +109,12 @@ def one_case(args):
         # measured non-triviality: (number of transfers, labels moved by compression / shrinking)
         out['stats'][compress] = dict(bytes=len(res.bytes), labels=dict(res.labels))
     batch.run()
+    out['corr'] = {}
+    for compress, q in corr_ids.items():
+        verdict = corr.compare(batch.get(q), ress[compress])
+        out['corr'][compress] = verdict
+        if verdict == 'differ':
+            out.setdefault('corr_diff', []).append(dict(compress=compress, model=batch.get(q)[:300], impl=corr.canon_impl(ress[compress])[:300]))
     for compress, p in pend.items():
         if compress == 'meaning':
             continue
@@ -128,8 +140,13 @@ def run_layout(prop, tier, replay):
     with ctx.Pool(min(16, os.cpu_count() or 4)) as pool:
         results = pool.map(one_case, args, chunksize=8)
     transfers = 0
+    corr_diff = []
     for r in results:
         rep.evaluations += 1
+        for c, v in r.get('corr', {}).items():
+            rep.count('model_vs_impl_' + v)
+        for d in r.get('corr_diff', []):
+            corr_diff.append(dict(program=r['src'], lines=r['lines'], **d))
         rep.nontrivial(r['nontrivial'])
         transfers += r['n_transfers']
         for c, st in r['status'].items():
@@ -150,9 +167,15 @@ def run_layout(prop, tier, replay):
                        '(align 0x200000); each assembled with and without -c. non-trivial = distinct (set of line kinds, '
                        'size class, outcome pair).')
     rep.assumptions += ['chunks are observed by wrapping asm.resolve_blobs from outside; label offsets are recomputed from chunk lengths']
+    rep.cov['model_vs_impl_disagreements'] = len(corr_diff)
     if not rep.violations and ob['failed']:
         rep.violation('proof obligation no longer checks: {} ({})'.format(ob['failed'][0][0], ob['failed'][0][1][:300]),
                       dict(theorem=ob['failed'][0][0], detail=ob['failed'][0][1]), no_input=True)
+    elif not rep.violations and corr_diff:
+        d = corr_diff[0]
+        rep.violation('correspondence assembleText (Lean model) vs asm.assemble broke on {} programs; first: model {} / impl {}'.format(
+            len(corr_diff), d['model'][:120], d['impl'][:120]),
+            dict(correspondence='BB.assembleText vs asm.assemble', case=d), no_input=True)
     return rep.finish(obligations=ob if ob['obligations'] else None)
 
 
